@@ -23,7 +23,7 @@ MIN_FUNCTIONS = 2
 ASSUMPTIONS = {
     "vc_clone": "Clone", "vs_string_eq_lit": "-", "vs_string_eq": "-", "vs_string_from_lit": "std to_owned",
     "axiom_cb_ends": "0 and len are char boundaries", "axiom_char_len": "char::len_utf8 facts", "axiom_same_line": "-",
-    "axiom_no_nl_empty": "-", "axiom_no_nl_split": "-", "axiom_line_mono": "-", "axiom_blen_bound": "str length bound",
+    "axiom_no_nl_empty": "-", "axiom_ws_empty": "an empty byte range is all-whitespace", "axiom_no_nl_split": "-", "axiom_line_mono": "-", "axiom_blen_bound": "str length bound",
     "vs_len": "str::len", "vs_slice_from": "&s[a..]", "vs_slice": "&s[a..b]", "vs_starts_with_char": "-", "vs_starts_with_str": "-",
     "vs_starts_with_lit": "-", "vs_ends_with_char": "-", "vs_find_char": "str::find(char)", "vs_first_char": "-",
     "vc_is_whitespace": "-", "vc_len_utf8": "-", "vs_split_once_nl": "-", "LinePositions": "-", "LineNumber": "-",
@@ -32,6 +32,7 @@ ASSUMPTIONS = {
     "vs_rfind_char": "str::rfind(char): byte index of the last occurrence; both ends are char boundaries",
     "vs_trim_is_empty": "`t.trim().is_empty()`: true only if t consists of whitespace",
     "vs_to_owned": "str::to_owned copies the text",
+    "vS_len": "String::len", "vS_slice": "&s[a..b] on a String", "vS_slice_from": "&s[a..] on a String", "sv": "-",
     "vf_concat3": "format!(\"{}{}{}\", a, b, c) is the concatenation a ++ b ++ c",
     "vsort_fixes_desc": "slice::sort_by_key(|f| Reverse(f.position.start_offset)) permutes the fixes into descending start order",
     "vto_vec": "slice::to_vec copies the elements",
@@ -49,7 +50,6 @@ UNVERIFIED = {"C22": [
 
 GLUE = """
 #[verifier::external_body] pub struct PathBuf { _o: u8 }
-pub uninterp spec fn ws_only(s: &str, a: int, b: int) -> bool;   // bytes a..b are all whitespace
 
 #[verifier::external_body]
 pub fn vs_rfind_char(s: &str, c: char) -> (r: Option<usize>)
@@ -59,16 +59,31 @@ pub fn vs_rfind_char(s: &str, c: char) -> (r: Option<usize>)
 pub fn vs_trim_is_empty(s: &str) -> (r: bool)
     ensures r ==> ws_only(s, 0, blen(s) as int),
 { s.trim().is_empty() }
+/// the text of a String, as a str (ghost)
+pub uninterp spec fn sv(s: &String) -> &str;
 #[verifier::external_body]
 pub fn vs_to_owned(s: &str) -> (r: String)
-    ensures blen(&r) == blen(s), forall|k: int| 0 <= k <= blen(s) ==> (#[trigger] is_cb(&r, k) <==> is_cb(s, k)),
+    ensures blen(sv(&r)) == blen(s), forall|k: int| 0 <= k <= blen(s) ==> (#[trigger] is_cb(sv(&r), k) <==> is_cb(s, k)),
 { s.to_owned() }
 /// format!("{}{}{}", a, b, c)
 #[verifier::external_body]
-pub fn vf_concat3(a: &str, b: &str, c: &str) -> (r: String)
-    ensures blen(&r) == blen(a) + blen(b) + blen(c),
-        forall|k: int| 0 <= k <= blen(a) ==> (#[trigger] is_cb(&r, k) <==> is_cb(a, k)),
+pub fn vf_concat3(a: &str, b: &String, c: &str) -> (r: String)
+    ensures blen(sv(&r)) == blen(a) + blen(sv(b)) + blen(c),
+        forall|k: int| 0 <= k <= blen(a) ==> (#[trigger] is_cb(sv(&r), k) <==> is_cb(a, k)),
 { unimplemented!() }
+/// `&s[a..b]` / `&s[a..]` on a String
+#[verifier::external_body]
+pub fn vS_slice<'a>(s: &'a String, a: usize, b: usize) -> (r: &'a str)
+    requires a <= b <= blen(sv(s)), is_cb(sv(s), a as int), is_cb(sv(s), b as int),
+    ensures is_sub(r, sv(s), a as int, b as int),
+{ &s[a..b] }
+#[verifier::external_body]
+pub fn vS_len(s: &String) -> (r: usize) ensures r == blen(sv(s)) { s.len() }
+#[verifier::external_body]
+pub fn vS_slice_from<'a>(s: &'a String, a: usize) -> (r: &'a str)
+    requires a <= blen(sv(s)), is_cb(sv(s), a as int),
+    ensures is_sub(r, sv(s), a as int, blen(sv(s)) as int),
+{ &s[a..] }
 """
 
 GLUE2 = """
@@ -84,10 +99,11 @@ pub open spec fn fix_in(s: &str, f: Autofix) -> bool {
     f.position.start_offset <= f.position.end_offset <= blen(s)
     && is_cb(s, f.position.start_offset as int) && is_cb(s, f.position.end_offset as int)
 }
-/// spans pairwise disjoint (touching allowed)
+/// spans pairwise disjoint and at distinct offsets (touching allowed)
 pub open spec fn disjoint(fs: Seq<Autofix>) -> bool {
     forall|i: int, j: int| #![trigger fs[i], fs[j]] 0 <= i < fs.len() && 0 <= j < fs.len() && i != j ==>
-        (fs[i].position.end_offset <= fs[j].position.start_offset || fs[j].position.end_offset <= fs[i].position.start_offset)
+        ((fs[i].position.end_offset <= fs[j].position.start_offset && fs[i].position.start_offset < fs[j].position.start_offset)
+         || (fs[j].position.end_offset <= fs[i].position.start_offset && fs[j].position.start_offset < fs[i].position.start_offset))
 }
 pub open spec fn sorted_desc(fs: Seq<Autofix>) -> bool {
     forall|i: int, j: int| #![trigger fs[i], fs[j]] 0 <= i < j < fs.len() ==> fs[i].position.start_offset >= fs[j].position.start_offset
@@ -107,7 +123,7 @@ pub fn vsort_fixes_desc(fs: &mut Vec<Autofix>)
 pub uninterp spec fn file_text(v: &Visitor, p: &VfsPathBuf) -> Option<&'static str>;
 #[verifier::external_body]
 pub fn vvfs_file_src<'a>(v: &'a Visitor, p: &VfsPathBuf) -> (r: Option<&'a String>)
-    ensures r is Some <==> file_text(v, p) is Some, r is Some ==> r->Some_0@ == file_text(v, p)->Some_0@ && blen(r->Some_0) == blen(file_text(v, p)->Some_0),
+    ensures r is Some <==> file_text(v, p) is Some, r is Some ==> sv(r->Some_0) == file_text(v, p)->Some_0,
 { unimplemented!() }
 """
 
@@ -138,7 +154,7 @@ def build(tier):
         rw.simple("R2", r"fixes\.sort_by_key\(\|b\| std::cmp::Reverse\(b\.position\.start_offset\)\);", "vsort_fixes_desc(&mut fixes);"),
         rw.simple("R11", r"\bsrc\.to_owned\(\)", "vs_to_owned(src)"),
         rw.simple("R9", r"format!\(\"\{\}\{\}\{\}\", &result\[\.\.start\], fix\.new_text, &result\[end\.\.\]\)",
-                  "vf_concat3(vs_slice(&result, 0, start), &fix.new_text, vs_slice_from(&result, end))"),
+                  "vf_concat3(vS_slice(&result, 0, start), &fix.new_text, vS_slice_from(&result, end))"),
         "R4b",
     ]
     u.add_fn(SC, "apply_fixes", rules=AF_RULES, contract=Contract(
@@ -147,8 +163,40 @@ def build(tier):
         loops={1: dict(invariant=[
             ("todo_ok", "forall|i: int| 0 <= i < it_rest(&__it1).len() ==> fix_in(src, #[trigger] it_rest(&__it1)[i])"),
             ("todo_sorted", "sorted_desc(it_rest(&__it1)), disjoint(it_rest(&__it1))"),
-            ("prefix_intact", "exists|lim: int| #![trigger is_cb(src, lim)] 0 <= lim <= blen(src) && lim <= blen(&result) && (forall|k: int| 0 <= k <= lim ==> (#[trigger] is_cb(&result, k) <==> is_cb(src, k))) && (forall|i: int| 0 <= i < it_rest(&__it1).len() ==> (#[trigger] it_rest(&__it1)[i]).position.end_offset <= lim)")],
+            ("prefix_intact", "0 <= lim <= blen(src), lim <= blen(sv(&result)), forall|k: int| 0 <= k <= lim ==> (#[trigger] is_cb(sv(&result), k) <==> is_cb(src, k))"),
+            ("todo_below", "forall|i: int| 0 <= i < it_rest(&__it1).len() ==> (#[trigger] it_rest(&__it1)[i]).position.end_offset <= lim")],
             decreases="it_rest(&__it1).len()")},
+        hints=[dict(anchor="let mut result =", where="after_stmt", text="let ghost mut lim: int = blen(src) as int;"),
+               dict(anchor="let start = fix.position.start_offset;", where="before",
+                    text="proof { let ghost rest = it_rest(&__it1); assert forall|i: int| 0 <= i < rest.len() implies (#[trigger] rest[i]).position.end_offset <= fix.position.start_offset by { } }"),
+               dict(anchor="result = vf_concat3", where="after_stmt", text="proof { lim = start as int; }")],
+        props=c22))
+    def opt_chain(m):
+        recv, how, arg, var, body, dflt = m.group("recv"), m.group("how"), m.group("arg"), m.group("v"), m.group("body"), m.group("d")
+        mm = re.match(r"(\w+)\[\.\.(.+)\]$", recv.strip())
+        if mm:
+            sl = "vS_slice(%s, 0, %s)" % (mm.group(1), mm.group(2))
+        else:
+            mm = re.match(r"(\w+)\[(.+)\.\.\]$", recv.strip())
+            sl = "vS_slice_from(%s, %s)" % (mm.group(1), mm.group(2))
+        fn = "vs_rfind_char" if how == "rfind" else "vs_find_char"
+        dflt = re.sub(r"\bsrc\.len\(\)", "vS_len(src)", dflt)
+        return "match %s(%s, %s) { Some(%s) => %s, None => %s }" % (fn, sl, arg, var, body, dflt)
+    GLP_RULES = [
+        rw.simple("local", r"self\.env\.vfs\.file_src\(&position\.vfs_path\)", "vvfs_file_src(self, &position.vfs_path)"),
+        # R13: `X.find(c).map(|v| BODY).unwrap_or(D)` is `match X.find(c) { Some(v) => BODY, None => D }`
+        rw.simple("R13", r"(?P<recv>\w+\[[^\]]+\])\s*\.(?P<how>r?find)\((?P<arg>'(?:\\.|[^'])')\)\s*\.map\(\|(?P<v>\w+)\| (?P<body>[^)]*)\)\s*\.unwrap_or\((?P<d>[^;]*)\);",
+                  lambda m: opt_chain(m) + ";"),
+        rw.simple("R1", r"(\w+)\[([\w\.]+?)\.\.([\w\.]+)\]\.trim\(\)\.is_empty\(\)", r"vs_trim_is_empty(vS_slice(\1, \2, \3))"),
+    ]
+    TXT = "file_text(self, &position.vfs_path)"
+    u.add_fn(UL, "get_line_position", impl="UnusedLiteralVisitor", wrap_impl="Visitor", rules=GLP_RULES, contract=Contract(
+        requires=[("position_in_file", "%s is Some ==> position.start_offset <= position.end_offset <= blen(%s->Some_0) && is_cb(%s->Some_0, position.start_offset as int) && is_cb(%s->Some_0, position.end_offset as int)" % (TXT, TXT, TXT, TXT))],
+        ensures=[
+            ("covers_literal", "%s is Some ==> r.start_offset <= position.start_offset && position.end_offset <= r.end_offset <= blen(%s->Some_0)" % (TXT, TXT)),
+            ("on_boundaries", "%s is Some ==> is_cb(%s->Some_0, r.start_offset as int) && is_cb(%s->Some_0, r.end_offset as int)" % (TXT, TXT, TXT)),
+            ("removes_only_blanks_besides_the_literal", "%s is Some ==> ws_only(%s->Some_0, r.start_offset as int, position.start_offset as int) && ws_only(%s->Some_0, position.end_offset as int, r.end_offset as int)" % (TXT, TXT, TXT)),
+        ],
         props=c22))
     u.add_canary_proof()
     u.raw(common.FOOTER)
